@@ -118,7 +118,16 @@ def gen_worker(repo, read):
                 raise Refuse(f"worker loop: statement outside the vocabulary: {t[:90]}", s)
         return out
     prog = stmts(loops[0].body)
+    # how a task's exception travels to the parent: the instance itself (pickled with its own reducer, so every argument and every
+    # attribute comes along), the formatted traceback attached as __cause__ on arrival
+    red = [un(x) for x in strip_docstring(find_function(tree, "_ExceptionWithTraceback.__reduce__").body)]
+    rb = find_function(tree, "_rebuild_exc")
+    ships_instance = (red == ["return (_rebuild_exc, (self.exc, self.tb))"] and [a.arg for a in rb.args.args] == ["exc", "tb"]
+                      and [un(x) for x in strip_docstring(rb.body)] == ["exc.__cause__ = _RemoteTraceback(tb)", "return exc"])
+    ini = [un(x) for x in strip_docstring(find_function(tree, "_ExceptionWithTraceback.__init__").body)]
+    formats_tb = "tb = traceback.format_exception(type(exc), exc, tb)" in ini and "self.exc = exc" in ini and "self.tb = tb" in ini
     text = ("(* GENERATED by /verif/tr from /repo's working tree -- do not edit.  source: loky/process_executor.py (_process_worker) *)\n"
             "From Coq Require Import List Bool.\nFrom LokyV Require Import Lib.WorkerLib.\nImport ListNotations.\n"
-            f"Definition worker_loop : list wstmt := [{'; '.join(prog)}].\n")
+            f"Definition worker_loop : list wstmt := [{'; '.join(prog)}].\n"
+            f"Definition task_exception_travels_as_the_instance_with_its_traceback_text : bool := {'true' if ships_instance and formats_tb else 'false'}.\n")
     return text, {"source": "loky/process_executor.py", "program": prog}
